@@ -273,6 +273,43 @@ fn vclk(b: Bencher) {
     });
 }
 
+/// Tuned sample size under the virtual clock (`HX_PREC` = timer precision in ps). The calls are
+/// also written to the crate's event log, which `main` dumps (`EV thread kind value`) so that
+/// the harness can read back every round: its START/END readings and its size.
+fn vcall(tag: &str) {
+    let cost: u64 = std::env::var("HX_VCLOCK").ok().and_then(|v| v.parse().ok()).unwrap_or(0);
+    call(tag);
+    divan::__verif::log_event(divan::__verif::ev::USER + 1, 0, 0);
+    divan::__verif::vclock_advance(cost);
+}
+
+/// no option at any level below the runner
+#[divan::bench]
+fn vtune_plain(b: Bencher) {
+    run("vtune_plain");
+    b.bench(|| vcall("vtune_plain"));
+}
+
+/// one attribute option (not the size)
+#[divan::bench(sample_count = 3)]
+fn vtune_attr(b: Bencher) {
+    run("vtune_attr");
+    b.bench(|| vcall("vtune_attr"));
+}
+
+#[divan::bench_group(sample_count = 4)]
+mod vgrp {
+    use super::{run, vcall};
+    use divan::Bencher;
+
+    /// one option, inherited from the group
+    #[divan::bench]
+    fn vtune_grp(b: Bencher) {
+        run("vtune_grp");
+        b.bench(|| vcall("vtune_grp"));
+    }
+}
+
 /// On the OS timer: every call really takes at least 400 ms.
 #[divan::bench(sample_count = 6, sample_size = 1)]
 fn os_sleep400(b: Bencher) {
@@ -323,6 +360,9 @@ const ALL: &[&str] = &[
     "hx_loop_e2e::ext_const_1_3_t2::8",
     "hx_loop_e2e::vclk",
     "hx_loop_e2e::os_sleep400",
+    "hx_loop_e2e::vtune_plain",
+    "hx_loop_e2e::vtune_attr",
+    "hx_loop_e2e::vgrp::vtune_grp",
 ];
 
 /// `HX_BUILDER`: `;`-separated builder calls (`sample_count=7`, `sample_size=3`,
@@ -355,7 +395,10 @@ fn main() {
         // overheads cannot be measured on a clock that only the benchmark body advances
         divan::__verif::vclock_set(0);
         divan::__verif::vclock_enable(1_000_000_000_000, 0);
-        divan::__verif::set_precision_override(Some(1));
+        let prec: u128 = std::env::var("HX_PREC").ok().and_then(|v| v.parse().ok()).unwrap_or(1);
+        divan::__verif::set_precision_override(Some(prec));
+        divan::__verif::log_reserve(1 << 18);
+        divan::__verif::log_enable(true);
         divan::__verif::set_overhead_override(Some([0; 4]));
     }
     let start = std::env::var("HX_START").unwrap_or_else(|_| "main".to_string());
@@ -376,6 +419,14 @@ fn main() {
         }
         "args-test-then-api-bench" => d.config_with_args().run_benches(),
         "args-bench-then-api-test" => d.config_with_args().test_benches(),
+        // builder calls, then `config_with_args()`, then the API (the arguments carry only the filter)
+        "builder-args-api-bench" => d.config_with_args().run_benches(),
         other => panic!("unknown HX_START {other}"),
+    }
+    if std::env::var("HX_VCLOCK").is_ok() {
+        divan::__verif::log_enable(false);
+        for e in divan::__verif::log_take() {
+            eprintln!("EV {} {} {}", e.thread, e.kind, e.a);
+        }
     }
 }
